@@ -1,5 +1,5 @@
 CONSTANT Level = "prop"
-CONSTANT CodecFails <- HCodecFails
+CONSTANT CodecFails <- NoCodecFails
 INIT Init
 NEXT Next
 POSTCONDITION Post
